@@ -10,6 +10,6 @@ for f in sorted(glob.glob("/verif/coq/Props/*.v")):
     rows.append("* **%s** (%d): %s" % (pid, len(names), ", ".join("`%s`" % n for n in names)))
 body = ("Generated from `coq/Props/*.v` (%d statements; each is closed by `exact <lemma>` and followed by `Print Assumptions`):\n\n" % tot) + "\n".join(rows) + "\n"
 t = open("/verif/DESIGN.md").read()
-t = re.sub(r"<!-- THEOREM-INVENTORY-BEGIN -->.*<!-- THEOREM-INVENTORY-END -->", "<!-- THEOREM-INVENTORY-BEGIN -->\n" + body + "<!-- THEOREM-INVENTORY-END -->", t, flags=re.S)
+t = re.sub(r"<!-- THEOREM-INVENTORY-BEGIN -->.*<!-- THEOREM-INVENTORY-END -->", lambda _m: "<!-- THEOREM-INVENTORY-BEGIN -->\n" + body + "<!-- THEOREM-INVENTORY-END -->", t, flags=re.S)
 open("/verif/DESIGN.md", "w").write(t)
 print(tot)
